@@ -197,7 +197,10 @@ func (ip *Inode) Resize(atxn *alloctxn.AllocTxn, sz uint64) bool {
 	ip.WriteInode(atxn)
 	if newSz < oldsz {
 		if ip.shrinkFits(atxn, oldsz-newSz) {
-			ip.Shrink(atxn)
+			// the estimate counts the blocks to free, not what else the
+			// transaction dirties (index blocks, the inode): if Shrink runs out
+			// of room before the end, the rest is left to the shrinker
+			doshrink = ip.Shrink(atxn)
 			util.DPrintf(1, "small file delete inside trans\n")
 		} else {
 			doshrink = true
